@@ -18,8 +18,10 @@ LEAVES = ["int", "str", "bool", "float", "None", "Any", "LC", "OC", "Color", "T"
 LEAF_SRC = {"LC": "LC_@MOD@", "FwdLC": '"LC_@MOD@"'}
 LEAF_IMG = {"int": "Int", "str": "String", "bool": "Boolean", "float": "Float", "Any": "Any", "LC": "LC", "OC": "OC", "Color": "Color", "T": "T", "TB": "TB", "FwdLC": "LC", "NT": "NT", "TD": "TD", "DC": "DC", "NTS": "NTS", "TPS": "TPS"}
 
-UNARY = ["list", "List", "Sequence", "Collection", "set", "tuple1", "Optional", "orNone", "Gen", "Callable0", "CallableNone"]
-BINARY = ["dict", "Mapping", "tuple2", "Union", "bar", "Callable1"]
+UNARY = ["list", "List", "Sequence", "Collection", "set", "tuple1", "Optional", "orNone", "Gen", "Callable0", "CallableNone", "AliasL", "AliasO"]
+BINARY = ["dict", "Mapping", "tuple2", "Union", "bar", "Callable1", "AliasP"]
+# AliasL / AliasO / AliasP: applications of the generic type aliases 'AliasL = list[AT]', 'AliasO = Optional[AT]',
+# 'AliasP = list[tuple[AK, AV]]' (HEADER): an alias application means its target with the arguments put in
 LITERALS = [("Lit", "1"), ("Lit", '"a"'), ("Lit", "True"), ("Lit", "None"), ("Lit", '1, "a"'), ("Lit", '"a", "b"'), ("Lit", "True, 1"), ("Lit", "1, None"), ("Lit", "Color.RED")]
 LIT_ATOMS = {
     "1": [("lit", "int:1")], '"a"': [("lit", "str:a")], "True": [("lit", "bool:True")], "None": [("null",)],
@@ -29,6 +31,7 @@ LIT_ATOMS = {
     "Color.RED": [("n", "Color", ())],
 }  # fmt: skip
 # constructors on which the statement is silent: enumerated, judged by self-consistency (compositionality / position) only
+ALIAS = ("AliasL", "AliasO", "AliasP")
 EXTRA_UNARY = ["type", "Iterable", "frozenset", "tupleEllipsis", "CallableEllipsis", "Annotated"]
 
 
@@ -47,6 +50,7 @@ def src(t) -> str:
         "dict": lambda: f"dict[{a[0]}, {a[1]}]", "Mapping": lambda: f"Mapping[{a[0]}, {a[1]}]", "tuple2": lambda: f"tuple[{a[0]}, {a[1]}]",
         "Union": lambda: f"Union[{a[0]}, {a[1]}]", "bar": lambda: f"{a[0]} | {a[1]}", "Callable1": lambda: f"Callable[[{a[0]}], {a[1]}]",
         "Final": lambda: f"Final[{a[0]}]",
+        "AliasL": lambda: f"AliasL[{a[0]}]", "AliasO": lambda: f"AliasO[{a[0]}]", "AliasP": lambda: f"AliasP[{a[0]}, {a[1]}]",
         "type": lambda: f"type[{a[0]}]", "Iterable": lambda: f"Iterable[{a[0]}]", "frozenset": lambda: f"frozenset[{a[0]}]",
         "tupleEllipsis": lambda: f"tuple[{a[0]}, ...]", "CallableEllipsis": lambda: f"Callable[..., {a[0]}]", "Annotated": lambda: f'Annotated[{a[0]}, "x"]',
     }[c]()  # fmt: skip
@@ -125,6 +129,12 @@ def ref(t) -> frozenset | None:
         return frozenset([("call", (kids[0],), _results(t[2], kids[1]))])
     if c == "Final":
         return kids[0]
+    if c == "AliasL":
+        return frozenset([("n", "List", (kids[0],))])
+    if c == "AliasO":
+        return kids[0] | frozenset([("null",)])
+    if c == "AliasP":
+        return frozenset([("n", "List", (frozenset([("n", "Tuple", (kids[0], kids[1]))]),))])
     raise AssertionError(c)
 
 
@@ -210,28 +220,37 @@ def enumerate_terms(tier: str):
             d1.append((c, a, b))
     d1 = [t for t in d1 if legal(t)]
     yield from ((t, 1) for t in d1)
-    if tier != "thorough":
-        # quick: a fixed depth-2 slice - every constructor over every constructor, children built from 3 leaves
+    def slice2():
+        # a fixed depth-2 slice - every constructor over every constructor, children built from 3 leaves
         small = [t for t in d1 if all(k in (("int",), ("None",), ("LC",), ("Lit", "1")) for k in t[1:])]
         for c in UNARY:
             for a in small:
                 t = (c, a)
                 if legal(t):
-                    yield t, 2
+                    yield t
         for c in BINARY:
             for a in small:
                 for b in (("str",), ("None",)):
                     for t in ((c, a, b), (c, b, a)):
                         if legal(t):
-                            yield t, 2
+                            yield t
+
+    if tier != "thorough":
+        yield from ((t, 2) for t in slice2())
         return
-    unary_d1 = [t for t in d1 if t[0] not in EXTRA_UNARY]
+    # thorough: complete for unary inner terms; the alias applications take part in depth 2 through the slice only
+    yield from ((t, 2) for t in slice2() if has(t, ALIAS))
+    unary_d1 = [t for t in d1 if t[0] not in EXTRA_UNARY and t[0] not in ALIAS]
     for c in UNARY:
+        if c in ALIAS:
+            continue
         for a in unary_d1:
             t = (c, a)
             if legal(t):
                 yield t, 2
     for c in BINARY:
+        if c in ALIAS:
+            continue
         for a in unary_d1:
             for b in leaves + LITERALS[:2]:
                 for t in ((c, a, b), (c, b, a)):
@@ -260,7 +279,7 @@ HEADER = (
     "from typing import Annotated, Any, Final, Literal, Optional, TypeVar, Union\n"
     "from collections.abc import Callable, Collection, Iterable, Mapping, Sequence\n"
     "from vpkg.support import DC, NT, NTS, OC, TD, TPS, Color, Gen\n\n"
-    'T = TypeVar("T")\nTB = TypeVar("TB", bound=int)\n\n\n'
+    'T = TypeVar("T")\nTB = TypeVar("TB", bound=int)\nAT = TypeVar("AT")\nAK = TypeVar("AK")\nAV = TypeVar("AV")\nAliasL = list[AT]\nAliasO = Optional[AT]\nAliasP = list[tuple[AK, AV]]\n\n\n'
     "class LC_@MOD@:\n    pass\n\n\n"
 )
 SUPPORT = (
@@ -296,7 +315,7 @@ def run(rep: Report, tier: str, seed: int) -> None:
     for i, (t, depth) in enumerate(enumerate_terms(tier)):
         cases.append(Case(i, render_case(i, t), (t, depth), (), label(t)))
     rep.rule = (
-        f"annotation terms over {len(LEAVES)} leaves (builtins, None, Any, local / imported / forward-referenced class, enum, type variables, NamedTuple / TypedDict / dataclass classes, a subclass of a NamedTuple class, a subclass of tuple[int, str]) + 9 Literal forms (one of an enum member) and 17 listed (+6 unlisted) constructors: depth<=1 complete; depth 2 "
+        f"annotation terms over {len(LEAVES)} leaves (builtins, None, Any, local / imported / forward-referenced class, enum, type variables, NamedTuple / TypedDict / dataclass classes, a subclass of a NamedTuple class, a subclass of tuple[int, str]) + 9 Literal forms (one of an enum member) and 20 listed (+6 unlisted) constructors (3 of them applications of generic type aliases): depth<=1 complete; depth 2 "
         + ("complete for unary inner terms (binary outer: one depth-1 child + one leaf, both orders)" if tier == "thorough" else "fixed slice (every constructor over every constructor)")
         + "; each term in 7 positions (parameter, constructor parameter, result, class attribute, instance attribute, result of a property, Final[...] class attribute); distinct = distinct term"
     )
